@@ -14,6 +14,19 @@ timeout 3000 make -j16 > build.log 2>&1 || { tail -50 build.log; exit 1; }
 if grep -rnE 'Admitted|admit\b|^\s*Axiom|^\s*Parameter|^\s*Conjecture|Unset Guard|bypass_check|type-in-type|Admit Obligations' theories generated --include='*.v'; then
   echo "forbidden construct found"; exit 1
 fi
+# no Variable / Hypothesis / Context outside a Section (each would declare an axiom)
+/venv/bin/python - <<'PY' || { echo "Variable/Hypothesis outside a Section"; exit 1; }
+import re, glob, sys
+bad = []
+for f in glob.glob('theories/**/*.v', recursive=True) + glob.glob('generated/*.v'):
+    depth = 0
+    for i, l in enumerate(open(f), 1):
+        if re.match(r'\s*Section\s+\w+', l): depth += 1
+        elif re.match(r'\s*End\s+\w+\s*\.', l) and depth > 0: depth -= 1
+        if re.match(r'\s*(Variables?|Hypothesis|Hypotheses|Context)\b', l) and depth == 0: bad.append((f, i, l.strip()))
+for b in bad: print(*b)
+sys.exit(1 if bad else 0)
+PY
 grep -c "Closed under the global context" build.log > /dev/null || true
 grep -B1 -A6 "Axioms:" build.log > assumptions.txt || echo "every Print Assumptions: Closed under the global context" > assumptions.txt
 echo "setup ok: $(grep -c 'Closed under the global context' build.log) theorems closed under the global context"
